@@ -77,9 +77,21 @@ Proof. exact C16F_filtering. Qed.
 Theorem C16_operator_tied : forall i rest n ls off,
   advance (i :: rest) n ls off = if lex_past_newline off i then advance rest (n + 1) (i + 1) off else (i :: rest, n, ls).
 Proof. exact tie_lex_advance. Qed.
+(* ... and so are the line / column arithmetic, the single-line fast path and the trimming of the padding *)
+Theorem C16_arithmetic_tied :
+  (forall t idx n ls r, lex_loop (t :: r) idx n ls =
+     let '(idx', n', ls') := advance idx n ls (lt_off t) in
+     mkTok (lt_kind t) (lt_val t) (lex_line_number n') (lex_column (lt_off t) ls') :: lex_loop r idx' n' ls') /\
+  (forall i rest n ls off, advance (i :: rest) n ls off =
+     if off >? i then advance rest (lex_line_number n) (lex_next_line_start i) off else (i :: rest, n, ls)) /\
+  (forall n t, trim_tok n t = mkLtok (lt_off t) (lt_kind t) (firstn (Z.to_nat (lex_trim_length n (lt_off t))) (lt_val t))) /\
+  (forall code lts, newline_indices code = [] ->
+     locate code lts = map (fun t => mkTok (lt_kind t) (lt_val t) 1 (lex_single_line_column (lt_off t))) (filter nonempty lts)).
+Proof. split; [exact tie_lex_position|]. split; [exact tie_lex_advance2|]. split; [exact tie_lex_trim|exact tie_lex_single_line]. Qed.
 
 Print Assumptions C16_padding_dropped.
 Print Assumptions C16_operator_tied.
+Print Assumptions C16_arithmetic_tied.
 Print Assumptions C16_file_line_and_column.
 Print Assumptions C16_file_text_at_position.
 Print Assumptions C16_file_strictly_increasing.
